@@ -31,7 +31,7 @@ def projects(draw: Any, cycles: bool = False, star_consumers: bool = False) -> D
         for i in range(draw(st.integers(1, 3))):
             kind = draw(st.sampled_from(['class', 'class', 'func']))
             name = ('K%d' if kind == 'class' else 'f%d') % new_id()
-            d = {'name': name, 'id': nid[0], 'kind': kind, 'bases': [], 'members': ['m'] if kind == 'class' and draw(st.booleans()) else [],
+            d = {'name': name, 'id': nid[0], 'kind': kind, 'bases': [], 'members': ['m'] if kind == 'class' and draw(st.integers(0, 3)) > 0 else [],
                  'nested': bool(kind == 'class' and draw(st.integers(0, 2)) == 0)}
             defs.append(d)
             all_defs.append((mod, d))
@@ -53,11 +53,11 @@ def projects(draw: Any, cycles: bool = False, star_consumers: bool = False) -> D
     cnames = draw(st.sampled_from([['c1'], ['c1', 'c2'], ['a_first', 'c2'], ['c1', 'zlast']]))
     for cm in cnames:
         uses = []
-        for _ in range(draw(st.integers(1, 4))):
+        for _ in range(draw(st.sampled_from([1, 1, 1, 2, 3, 4]))):
             m, d = draw(st.sampled_from(all_defs))
-            how = draw(st.sampled_from(['from-impl', 'from-exporter', 'both', 'modalias', 'pkgalias', 'from-impl']))
-            as_ = draw(st.sampled_from(['base', 'ann', 'xref-old', 'xref-new', 'name'] if d['kind'] == 'class' else ['ann', 'xref-old', 'xref-new', 'name']))
-            uses.append({'obj': d['name'], 'from': m, 'how': how, 'as': as_})
+            how = draw(st.sampled_from(['from-impl', 'from-exporter', 'both', 'modalias', 'pkgalias', 'pkgalias', 'modalias']))
+            as_ = draw(st.sampled_from(['base', 'base', 'base', 'ann', 'xref-old', 'xref-new', 'name'] if d['kind'] == 'class' else ['ann', 'xref-old', 'xref-new', 'name']))
+            uses.append({'obj': d['name'], 'from': m, 'how': how, 'as': as_, 'rebind': bool(as_ == 'base' and d['members'] and draw(st.integers(0, 3)) > 0)})
         consumers.append({'mod': cm, 'uses': uses})
     extra = {'cycle': cycles and draw(st.booleans()), 'star_consumer': star_consumers and draw(st.booleans()), 'second_root': draw(st.integers(0, 3)) == 0}
     return {'impl': impl, 'exports': exports, 'consumers': consumers, 'extra': extra}
@@ -162,6 +162,10 @@ def to_files(proj: Dict[str, Any]) -> Tuple[Dict[str, str], Dict[str, Any]]:
             uname = '%s_u%d' % (cm['mod'], ui)
             if u['as'] == 'base':
                 body += ['class %s(%s):' % (uname, local), '    """consumer class"""']
+                if u.get('rebind'):
+                    # rebinding the name of an inherited method by assignment: whether this is documented as a new class
+                    # variable must not depend on when the base class became known
+                    body += ['    m = staticmethod(len)', '    newvar = 1']
                 checks.append({'type': 'base', 'obj': obj, 'from': frm, 'consumer': 'p.%s.%s' % (cm['mod'], uname), 'how': how})
             elif u['as'] == 'ann':
                 body += ['def %s(x: %s) -> "%s":' % (uname, local, local), '    """consumer function"""']
